@@ -241,6 +241,8 @@ def encode(cid, r, carrier):
     lines.append("roots " + " ".join(f"{u} {enc(x)}" for u, x in r["roots"]))
     lines.append("opts " + " ".join("1" if b else "0" for b in r["opts"]))
     lines.append("times " + " ".join(enc(x) for x in r["timepoints"]))
+    if carrier == "rat" and r.get("want_brute"):
+        lines.append("brute 1")
     lines.append("end")
     return "\n".join(lines) + "\n"
 
@@ -250,6 +252,13 @@ def decode(line, r, carrier):
     if parts[1:] == ["bad-op"]:
         return None
     dec = h2f if carrier == "float" else q2frac
+    brute = None
+    if "|" in parts:
+        k0 = parts.index("|")
+        bvals = [dec(x) for x in parts[k0 + 1:]]
+        parts = parts[:k0]
+        G0 = r["G"]
+        brute = dict(Z=bvals[0], marg={u: bvals[1 + i * G0:1 + (i + 1) * G0] for i, u in enumerate(r["nonfixed"])})
     vals = [dec(x) for x in parts[1:]]
     G = r["G"]
     out = dict(marg=vals[0], denom={}, inside={}, outside={}, probs={}, mean={}, var={})
@@ -264,6 +273,7 @@ def decode(line, r, carrier):
         k += 3 + 3 * G
     if k != len(vals):
         raise common.LeanError(f"driver reply has {len(vals)} values, expected {k}")
+    out["brute"] = brute
     return out
 
 
